@@ -7,7 +7,7 @@ package txtar
 
 //@ property C03: isMarker, findFileMarker, fixNL, Parse
 //@ bounded C03: TestVerifBoundedParseRoundTrip
-//@ property C14: NeedsQuote, Quote, lemma:quotedSafe, cmd/txtar-c/main$1
+//@ property C14: NeedsQuote, Quote, lemma:quotedSafe, cmd/txtar-c/main$1, isMarker, findFileMarker, fixNL
 //@ bounded C14: TestVerifBoundedUnquoteQuote
 
 // Vocabulary (from the txtar format description and properties C03/C14).
@@ -98,7 +98,9 @@ package txtar
 // C15: Write creates files only at or below dir, never overwrites, reports an
 // error for names that are absolute or climb out, and on success every file
 // holds its entry's data. (fs model and path algebra: /verif/specs/fs.spec)
-//@ property C15: Write, isAbs, cmd/txtar-x/main, cmd/txtar-c/main$1, cmd/txtar-c/main
+//@ property C15: Write, isAbs, cmd/txtar-x/main, cmd/txtar-c/main$1, cmd/txtar-c/main, NeedsQuote, Quote, lemma:quotedSafe, isMarker, findFileMarker, fixNL, Parse
+//@ bounded C15: TestVerifBoundedUnquoteQuote
+//@ bounded C15: TestVerifBoundedParseRoundTrip
 //
 // the path Write creates for an entry name
 //@ pure func targetP(dir string, name string) string = joinP(dir, cleanP(name))
